@@ -1,7 +1,7 @@
 (* C11 - every message survives encode/decode in both encodings, field by field; the enum
    mappings are total.  Property theorems only; each is closed by [exact] of a lemma of
    Proofs/CodecProofs.v.  Model: Model/Codec.v; generated tables: Gen/Enums.v (T1), Gen/Conv.v (T2). *)
-From Coq Require Import List NArith ZArith Bool.
+From Coq Require Import String List NArith ZArith Bool Lia.
 From Iscp Require Import Gen.Enums Gen.Conv Model.Codec Proofs.CodecProofs.
 Import ListNotations.
 Open Scope Z_scope.
@@ -89,8 +89,8 @@ Theorem c11_duration_seconds : forall d,
   eval SecToDur (VInt (Z.quot d 1000000000 mod 4294967296)) = Ok (VInt (d - d mod 1000000000)).
 Proof.
   intros d H0 H1 H2. cbn [eval eval_prim_int]. f_equal. f_equal.
-  rewrite <- (dur_sec_canon d H0). apply dur_sec_roundtrip.
-  unfold dur_sec_okb, e9, two32. destruct H2; lia.
+  pose proof (dur_sec_roundtrip d) as R. pose proof (dur_sec_canon d H0) as C.
+  unfold dur_sec_okb, e9, two32 in *. rewrite R; [exact C|]. destruct H2; lia.
 Qed.
 Print Assumptions c11_duration_seconds.
 
